@@ -1,10 +1,17 @@
 #!/bin/bash
-# tools/seedmatrix.sh [names...]: runs, for every kept seeded change, the check of the property it
-# breaks against a scratch worktree with the change applied; prints "<seed> <check> exit=<rc>".
+# tools/seedmatrix.sh [names...]: runs, for every kept seeded change, the check that is recorded
+# as catching it (meta.json caught_by[0], else the property it breaks) against a scratch worktree
+# with the change applied; prints "<seed> <check> exit=<rc>". WSYM_STOP_ON_VIOLATION ends a
+# check at the first run with a solid violation.
 cd /verif
 names="$@"; [ -z "$names" ] && names=$(ls seeded)
 for n in $names; do
-  id=$(python3 -c "import json;print(json.load(open('seeded/$n/meta.json'))['breaks'])")
-  rc=$(WSYM_STOP_ON_VIOLATION=1 WSYM_NO_REPLAY= tools/seedrun.sh /verif/seeded/$n/patch.diff $id 2>&1 | grep '^exit=' | tail -1)
+  id=$(python3 -c "
+import json,re
+m=json.load(open('seeded/$n/meta.json'))
+c=m.get('caught_by') or []
+x=re.match(r'(C\d\d)', c[0]) if c else None
+print(x.group(1) if x else m['breaks'])")
+  rc=$(WSYM_STOP_ON_VIOLATION=1 tools/seedrun.sh /verif/seeded/$n/patch.diff $id 2>&1 | grep '^exit=' | tail -1)
   echo "$n $id $rc"
 done
